@@ -386,7 +386,12 @@ def comm_ops(desc: dict[str, Any]) -> tuple[dict[Any, list[dict[str, Any]]],
         if it["id"] not in live:
             continue
         if it["kind"] == "send":
-            sends.setdefault((it["rank"], it["dest"], repr(it["tag"])), []).append(it)
+            # value semantics again: two holders with the same payload, destination, tag and
+            # passthrough are ONE node, i.e. one send (arises when a fault redirects a send
+            # onto a twin)
+            lst = sends.setdefault((it["rank"], it["dest"], repr(it["tag"])), [])
+            if not any(value_key(desc, x["id"]) == value_key(desc, it["id"]) for x in lst):
+                lst.append(it)
         elif it["kind"] == "recv":
             lst = recvs.setdefault((it["src"], it["rank"], repr(it["tag"])), [])
             # value semantics: structurally identical receive nodes ARE one node (one
@@ -396,6 +401,35 @@ def comm_ops(desc: dict[str, Any]) -> tuple[dict[Any, list[dict[str, Any]]],
                        for x in lst):
                 lst.append(it)
     return sends, recvs
+
+
+def value_key(desc: dict[str, Any], iid: int) -> Any:
+    """Structural identity of the array an item denotes (pytato arrays compare by value)."""
+    byid = {it["id"]: it for it in desc["items"]}
+    memo: dict[int, Any] = {}
+
+    def rec(i: Any) -> Any:
+        if not isinstance(i, int) or isinstance(i, bool):
+            return ("const", repr(i))
+        if i in memo:
+            return memo[i]
+        it = byid[i]
+        k = it["kind"]
+        if k == "op":
+            r: Any = ("op", it["op"], tuple(rec(a) if isinstance(a, int) and a in byid
+                                             else ("const", repr(a)) for a in it["args"]),
+                      bool(it.get("stored")), it["rank"])
+        elif k == "send":
+            r = ("send", it["rank"], it["dest"], repr(it["tag"]), rec(it["data"]),
+                 rec(it["stapled"]))
+        elif k == "recv":
+            r = ("recv", it["rank"], it["src"], repr(it["tag"]), tuple(it["shape"]),
+                 it["id"] if it.get("variant") else None)
+        else:
+            r = (k, it["id"])
+        memo[i] = r
+        return r
+    return rec(iid)
 
 
 def reachable(desc: dict[str, Any]) -> set[int]:
